@@ -1,4 +1,5 @@
 import IndicatifModel.Model.Position
+import IndicatifModel.Generated.Atomics
 /-!
 # C07 — Position and length bookkeeping, including concurrent increments
 -/
@@ -92,6 +93,22 @@ theorem C07_concurrent (cs cs' : List IncDec) (s : St) (hperm : cs.Perm cs') (hs
     (run s (cs.map IncDec.op)).pos = (s.pos + (cs.map IncDec.delta).sum) % U64 := by
   have hsum : (cs.map IncDec.delta).sum = (cs'.map IncDec.delta).sum := perm_sum (hperm.map IncDec.delta)
   exact ⟨by rw [run_incdec cs s hs, run_incdec cs' s hs, hsum], run_incdec cs s hs⟩
+
+/-- **`inc` and `dec` are single atomic read-modify-write steps in the code as it is now** (the table is
+regenerated from `src/state.rs` and `src/progress_bar.rs` on every run): the atomicity that
+`C07_concurrent` assumes of each call. A load followed by a store would not do:
+`C07_load_store_loses_updates`. -/
+theorem C07_inc_is_rmw : Generated.incSteps = [.rmwAdd] ∧ Generated.decSteps = [.rmwSub] ∧
+    Generated.setPositionSteps = [.store] := by decide
+
+/-- two threads each doing `load; store (x + 1)` interleaved as load, load, store, store end at `1`, not `2` -/
+theorem C07_load_store_loses_updates :
+    let mem0 := 0
+    let r1 := mem0      -- thread 1 loads
+    let r2 := mem0      -- thread 2 loads
+    let mem1 := r1 + 1  -- thread 1 stores
+    let mem2 := r2 + 1  -- thread 2 stores (over mem1)
+    mem1 = 1 ∧ mem2 = 1 ∧ mem2 ≠ mem0 + 2 := by decide
 
 /-- finish variants move the position to the length when one is set; abandon variants keep it -/
 theorem C07_finish (s : St) : (step s .finish).pos = s.len.getD s.pos ∧ (step s .finish).finished = true ∧
